@@ -1770,6 +1770,26 @@ func recomputes(fn *funcInfo, depth int) bool {
 	}
 	c := newCtx(fn)
 	found := false
+	isHashCall := func(e ast.Expr) bool {
+		if sc, ok := e.(*ast.CallExpr); ok {
+			if ss, ok := sc.Fun.(*ast.SelectorExpr); ok && (ss.Sel.Name == "generateHash" || ss.Sel.Name == "hash") {
+				return true
+			}
+		}
+		return false
+	}
+	// locals holding the recomputed hash: h := recv.generateHash()
+	hashLocals := map[string]bool{}
+	ast.Inspect(fn.decl.Body, func(n ast.Node) bool {
+		if as, ok := n.(*ast.AssignStmt); ok {
+			for i, l := range as.Lhs {
+				if id, ok := l.(*ast.Ident); ok && i < len(as.Rhs) && isHashCall(as.Rhs[i]) {
+					hashLocals[id.Name] = true
+				}
+			}
+		}
+		return true
+	})
 	ast.Inspect(fn.decl.Body, func(n ast.Node) bool {
 		call, ok := n.(*ast.CallExpr)
 		if !ok || found {
@@ -1781,10 +1801,11 @@ func recomputes(fn *funcInfo, depth int) bool {
 		}
 		if sel.Sel.Name == "Equal" && len(call.Args) == 1 {
 			for _, side := range []ast.Expr{call.Args[0], sel.X} {
-				if sc, ok := side.(*ast.CallExpr); ok {
-					if ss, ok := sc.Fun.(*ast.SelectorExpr); ok && (ss.Sel.Name == "generateHash" || ss.Sel.Name == "hash") {
-						found = true
-					}
+				if isHashCall(side) {
+					found = true
+				}
+				if id, ok := side.(*ast.Ident); ok && hashLocals[id.Name] {
+					found = true
 				}
 			}
 		}
